@@ -38,7 +38,8 @@ META = {
                   "tested per run on the defects the code uses, not linked by proof); re-flagging on a mesh object that carried earlier "
                   "fields stores exactly the indices of the field asked for (both element kinds; the `.clear()` of both "
                   "flag_singularities is generated); the stage plumbing of FrameField.run() (generated: initialize iff not "
-                  "initialised, optimize iff not smoothed, independently) guarantees that any order of the public calls "
+                  "initialised, optimize iff not smoothed, independently; C18_init_caches: the face field caches no attribute in "
+                  "_initialize_attributes) guarantees that any order of the public calls "
                   "initialize / optimize / run / __call__ containing a run() has optimised; gauge covariance of operator + partition + solve: whatever any solver "
                   "answers in rotated bases, rotated back it is a harmonic extension of the original constraints, and "
                   "normalisation commutes with the gauge. PARTIAL: index quantum (e^{i order angle} = 1 under "
@@ -51,7 +52,9 @@ META = {
                   "edges. The model is tied to the code by the translator and by kernel-evaluated correspondence batches "
                   "(bases, transports as (cos,sin), operator entries, constraint vector, partition, the system handed to "
                   "spsolve and the residual of its answer, final field, indices incl. the previous content of the attribute) on "
-                  "generated surfaces, on SEQUENCES of field computations + flaggings on one mesh object, and with every field "
+                  "generated surfaces, on SEQUENCES of field computations + flaggings on one mesh object (vertices moved in place "
+                  "between steps, mouette.config.display_duplicate_attribute_warning toggled; every step compared with a fresh mesh of "
+                  "the same geometry; attribute names snapshotted before / after every computation), and with every field "
                   "driven through one of nine legal orders of its public stage methods (the number of initialize / optimize "
                   "executions is compared with the model in a kernel batch).",
     "level_note": "Trusted: Coq kernel + vm_compute; the translator vf/translate/c18.py; the correspondence harness (mesh "
@@ -206,13 +209,25 @@ def make_sequence(rng, tier):
     m = G.random_mesh(rng, tier)
     steps = []
     elem = rng.choice(["faces", "faces", "vertices"])
+    V = m["V"]
+    dup = rng.random() < 0.4        # mouette.config.display_duplicate_attribute_warning for the whole sequence
     for k in range(rng.choice([2, 2, 3])):
+        if k >= 1 and rng.random() < 0.5:
+            # the caller moves the vertices of the mesh object in place between two computations
+            for _ in range(20):
+                amp = 0.06
+                V2 = [[x + rng.uniform(-amp, amp) for x in p] if not m["planar"] else [p[0] + rng.uniform(-amp, amp), p[1] + rng.uniform(-amp, amp), p[2]]
+                      for p in V]
+                if G._nondegenerate(V2, m["F"]):
+                    V = V2
+                    break
         c = G.random_config(rng)
+        c["dup_warning"] = dup
         if rng.random() < 0.75:
             c["elem"] = elem           # mostly the same element kind: the attribute is re-used
         if rng.random() < 0.7:
             c["n_smooth"] = 0
-        c.update({"V": m["V"], "F": m["F"], "planar": m["planar"], "kind": m["kind"], "seed": rng.randrange(1 << 30)})
+        c.update({"V": V, "F": m["F"], "planar": m["planar"], "kind": m["kind"], "seed": rng.randrange(1 << 30)})
         steps.append(c)
     return steps
 
@@ -302,12 +317,17 @@ def run(ctx):
                 cases.append(json.load(open(os.path.join(cdir, f))))
     wit = witness_cases()
     wit_at = {}
+    wit_seqs = []     # witnesses that are sequences on one mesh object: (key, steps)
     for k, c in wit:
+        if c.get("_seq", {}).get("earlier"):
+            plain = {kk: vv for kk, vv in c.items() if kk != "_seq"}
+            wit_seqs.append((k, [dict(x, V=x.get("V", c["V"]), F=c["F"]) for x in c["_seq"]["earlier"]] + [plain]))
+            continue
         wit_at[len(cases)] = k
         cases.append(dict(c))
     n_fixed_cases = len(cases)
     cases += [make_case(ctx.rng, ctx.tier) for _ in range(n_cases)]
-    seqs = [make_sequence(ctx.rng, ctx.tier) for _ in range(n_seq)]
+    seqs = [sq for _, sq in wit_seqs] + [make_sequence(ctx.rng, ctx.tier) for _ in range(n_seq)]
     if not quick:
         sw = sweep_cases()
         cases += sw
@@ -316,12 +336,14 @@ def run(ctx):
     results = run_cases_impl(cases)
     # sequences on one mesh object: every step becomes a case of its own (judged against the field it was asked for);
     # steps after the first are also re-run on a fresh mesh (history independence of the flagging)
-    seq_res = run_cases_impl([{"seq": sq} for sq in seqs], per=2)
+    seq_res = run_cases_impl([{"seq": sq, "dup_warning": sq[0].get("dup_warning", False)} for sq in seqs], per=2)
     fresh_of = {}
     later = []
-    for sq, sr in zip(seqs, seq_res):
+    for si, (sq, sr) in enumerate(zip(seqs, seq_res)):
+        if si < len(wit_seqs):
+            wit_at[len(cases) + len(sq) - 1] = wit_seqs[si][0]
         for k, (c, r) in enumerate(zip(sq, sr["steps"])):
-            cases.append(dict(c, _seq={"step": k, "earlier": [{kk: vv for kk, vv in x.items() if kk not in ("V", "F")} for x in sq[:k]]}))
+            cases.append(dict(c, _seq={"step": k, "earlier": [{kk: vv for kk, vv in x.items() if kk != "F"} for x in sq[:k]]}))
             results.append(r)
             if k >= 1 and r["ok"] and "crash" not in r["obs"]:
                 later.append(len(cases) - 1)
@@ -378,9 +400,22 @@ def run(ctx):
     # history independence of the flagging
     for i, fr in fresh_of.items():
         if fr["ok"] and results[i]["ok"] and "crash" not in fr["obs"] and "crash" not in results[i]["obs"]:
-            v = ORA.history_check(cases[i], results[i]["obs"], fr["obs"])
-            if v is not None:
-                fails.append((i, v[0], v[1] + " [earlier on this mesh: %s]"
+            hist = ORA.history_check(cases[i], results[i]["obs"], fr["obs"])
+            obs_i = results[i]["obs"]
+            # moved vertices: when the probe shows that the very same call on the very same object gives the fresh field AND
+            # indices once the five known geometry caches are deleted, whatever is wrong with the indices of the stale run
+            # (stale corner angles -> stale defects) has that recorded mechanism
+            deterministic = len(obs_i["feat"]) > 0 and cases[i]["n_smooth"] == 0
+            verified = ORA.cleared_matches_fresh(obs_i, fr["obs"]) if deterministic else (
+                "cleared_obs" in obs_i and "crash" not in obs_i["cleared_obs"]
+                and not any(k.startswith(("index/", "rotation/")) for k, _ in ORA.check(cases[i], obs_i["cleared_obs"])))
+            if obs_i.get("moved") and verified:
+                stale_keys = ("index/quantum", "index/sum", "index/history", "rotation/matching")
+                if any(fi == i and fk in stale_keys for fi, fk, _ in fails) or any(k in stale_keys for k, _ in hist):
+                    fails = [(fi, ("history/stale-geometry-cache" if (fi == i and fk in stale_keys) else fk), fm) for fi, fk, fm in fails]
+                    hist = [(("history/stale-geometry-cache" if k in stale_keys else k), m) for k, m in hist]
+            for key, msg in hist:
+                fails.append((i, key, msg + " [earlier on this mesh: %s]"
                               % [(x["elem"], x["order"], x["features"], x["n_smooth"]) for x in cases[i]["_seq"]["earlier"]]))
     # metamorphic
     n_meta_checked = n_meta_dropped = 0
@@ -498,14 +533,12 @@ def replay(ctx, data):
         return 1
     if case.get("_seq", {}).get("earlier"):
         plain = {k: v for k, v in case.items() if k != "_seq"}
-        seq = [dict(x, V=case["V"], F=case["F"]) for x in case["_seq"]["earlier"]] + [plain]
-        r = run_cases_impl([{"seq": seq}])[0]["steps"][-1]
+        seq = [dict(x, V=x.get("V", case["V"]), F=case["F"]) for x in case["_seq"]["earlier"]] + [plain]
+        r = run_cases_impl([{"seq": seq, "dup_warning": case.get("dup_warning", False)}])[0]["steps"][-1]
         fs = oracle_on(case, r)
         fr = run_cases_impl([plain])[0]
         if r["ok"] and fr["ok"] and "crash" not in r["obs"] and "crash" not in fr["obs"]:
-            v = ORA.history_check(case, r["obs"], fr["obs"])
-            if v is not None:
-                fs.append(v)
+            fs += ORA.history_check(case, r["obs"], fr["obs"])
         print("sequence on one mesh object: %d earlier field(s)" % len(case["_seq"]["earlier"]))
     else:
         r = run_cases_impl([case])[0]
